@@ -84,6 +84,8 @@ pub enum Op {
     /// sealed (it is not seal-guarded and runs the expiry sweep), unseal with the master password.
     /// Expired grants must be as dead after the cycle as after a plain sleep.
     SealedSleep,
+    /// sleep past the short TTL, then open a new Vault over the same store and graph
+    ClosedSleep,
     /// root issues the same short-lived grant 20 times in a row (each one is a tracker entry of its
     /// own): a backlog of expiries larger than any batch an expiry sweep might work in
     GrantBurst { to: P, sec: u16, lvl: u8 },
@@ -212,7 +214,7 @@ fn op(short: bool) -> BoxedStrategy<Op> {
         2 => Just(Op::Scan),
     ];
     if short {
-        prop_oneof![100 => base, 7 => any::<bool>().prop_map(|poke| Op::Sleep { poke }), 3 => Just(Op::SealedSleep), 3 => (p_to(), idx(), 0u8..3).prop_map(|(to, sec, lvl)| Op::GrantBurst { to, sec, lvl })].boxed()
+        prop_oneof![100 => base, 7 => any::<bool>().prop_map(|poke| Op::Sleep { poke }), 3 => Just(Op::SealedSleep), 3 => Just(Op::ClosedSleep), 3 => (p_to(), idx(), 0u8..3).prop_map(|(to, sec, lvl)| Op::GrantBurst { to, sec, lvl })].boxed()
     } else {
         base.boxed()
     }
